@@ -16,6 +16,7 @@ import (
 	"time"
 
 	"gtsverif/core"
+	"gtsverif/engines/globals"
 )
 
 type propCheck struct {
@@ -111,6 +112,9 @@ func main() {
 			p.BuildSSA()
 		}
 		pc.Run(p, rep, *tier)
+		if stateless[*prop] {
+			globals.Stateless(p, rep)
+		}
 		return
 	}
 	code()
